@@ -19,7 +19,7 @@ theorem deliver_eq (c : Chain) (b : Block) (p t : Node) (hb : getNode c b.id = n
     (hp : getNode c b.parent = some p) (ht : getNode c c.tip = some t)
     (hdeep : (p.id != t.id && decide (t.height ≥ p.height + 1 + MovingCheckpointDepth)) = false) :
     deliver c b = commitBlock (accepted c b p) b (p.height + 1) := by
-  unfold deliver accepted
+  unfold deliver deliverAt accepted
   simp only [hb, Option.isSome_none, Bool.false_eq_true, if_false, hp, ht, hdeep]
 
 theorem getNode_delivered (c : Chain) (b : Block) (p : Node) (hb : getNode c b.id = none)
@@ -193,8 +193,15 @@ theorem commitBlock_side (c : Chain) (b : Block) (p : Node) (h : Nat) (hside : c
     place: floor 0); the tip is a maximum-work node of the tree -/
 structure Inv (U : List Block) (c : Chain) : Prop where
   wf : TreeWF U c
-  path : ∃ path, PathOKH c 0 path
+  path : ∃ path, PathOKH c 0 path ∧ Ext c path
   maxw : MaxW c
+
+/-- what one delivery may lose, and what becomes of the delivered block: every node that disappears is excused (it or
+    an ancestor fails when connected on its own branch), and the delivered block itself is a node afterwards unless it
+    was turned away as an orphan / too deep, or is excused -/
+def DeliveryComplete (U : List Block) (c : Chain) (b : Block) (r : Chain × Outcome) : Prop :=
+  Lost U c.root c r.1 ∧
+  (getNode r.1 b.id = none → r.2 = Outcome.later ∨ r.2 = Outcome.tooDeep ∨ Excused U c.root b.id)
 
 theorem fuelOf_enough (c : Chain) : fuelOf c ≥ c.nodes.length * (c.nodes.length + 4) + c.nodes.length + 1 := by
   unfold fuelOf
@@ -207,6 +214,7 @@ theorem newNode_ok (b : Block) (p : Node) (hp : p.id = b.parent) :
 
 /-- a block delivered on a side branch: stored aside, or — with more work than the tip — reorganised to -/
 theorem deliver_side {U : List Block} {c : Chain} (w : TreeWF U c) {path : List PE} (hpo : PathOKH c 0 path)
+    (hx : Ext c path)
     (hm : MaxW c) (hU : BlockTree c.root U) (b : Block) (hbU : b ∈ U) (p : Node)
     (hb : getNode c b.id = none) (hp : getNode c b.parent = some p) (hside : c.tip ≠ b.parent) (h : Nat) :
     Inv U (commitBlock (accepted c b p) b h).1 ∧ (commitBlock (accepted c b p) b h).1.root = c.root ∧
@@ -214,7 +222,8 @@ theorem deliver_side {U : List Block} {c : Chain} (w : TreeWF U c) {path : List 
     ((commitBlock (accepted c b p) b h).1.tip = c.tip ∨ (commitBlock (accepted c b p) b h).1.tip = b.id ∨
       (commitBlock (accepted c b p) b h).2 = Outcome.moveFailed) ∧
     (∀ t, getNode c c.tip = some t → W c p + (difficulty b.bits).val ≤ W c t →
-      (commitBlock (accepted c b p) b h).1.tip = c.tip) := by
+      (commitBlock (accepted c b p) b h).1.tip = c.tip) ∧
+    DeliveryComplete U c b (commitBlock (accepted c b p) b h) := by
   have hns : alookup b.id c.store = none := by
     cases hh : alookup b.id c.store with
     | none => rfl
@@ -242,13 +251,22 @@ theorem deliver_side {U : List Block} {c : Chain} (w : TreeWF U c) {path : List 
       have hne : e.id ≠ b.id := by intro e1; rw [e1, hns] at hb0; cases hb0
       exact ⟨b0, by show alookup e.id (aset b.id _ c.store) = some b0; rw [alookup_aset_ne _ _ _ _ hne]; exact hb0, rfl⟩
   have hU1 : BlockTree (stored c b p).root U := hU
+  have hx1 : Ext (stored c b p) path := hx.store_aside b.id b.txs (fun e he heq => by
+    obtain ⟨s0, h0, _⟩ := hx.onPath e he
+    rw [heq, hns] at h0; cases h0) rfl
+  have hlost1 : Lost U c.root c (stored c b p) := by
+    intro x hxs hnone
+    cases hg : getNode c x with
+    | none => rw [hg] at hxs; cases hxs
+    | some n => obtain ⟨n', g1, _⟩ := dlv_old hb hp sd x n hg; rw [g1] at hnone; cases hnone
   have hmp := morePOW_spec w1 hU1 (dlv_new sd) ht'
   rw [commitBlock_side c b p h hside hns, dlv_new sd, ht']
   simp only
   cases hmo : morePOW (stored c b p) (newNode b p) t' with
   | false =>
     simp only [Bool.false_eq_true, if_false]
-    refine ⟨⟨w1, ⟨path, hp1⟩, ?_⟩, rfl, (fun s hs => by cases hs), Or.inl rfl, fun _ _ _ => rfl⟩
+    refine ⟨⟨w1, ⟨path, hp1, hx1⟩, ?_⟩, rfl, (fun s hs => by cases hs), Or.inl rfl, fun _ _ _ => rfl,
+      hlost1, fun hnone => by rw [dlv_new sd] at hnone; cases hnone⟩
     refine maxW_keep w hb hp sd hm rfl ?_
     intro t2 ht2
     rw [ht'] at ht2; cases ht2
@@ -258,11 +276,13 @@ theorem deliver_side {U : List Block} {c : Chain} (w : TreeWF U c) {path : List 
   | true =>
     simp only [if_true]
     have hgt : W (stored c b p) (newNode b p) > W (stored c b p) t' := hmp.mp hmo
-    obtain ⟨c2, path2, g1, g2, g3, g4, g5⟩ := (reorg_specs U (fuelOf (stored c b p))).2.2 (stored c b p) b.id (newNode b p) path
-      w1 hp1 hU1 (dlv_new sd) (fuelOf_enough _)
+    obtain ⟨c2, path2, g1, g2, g3, g4, g5, g6, g7⟩ := (reorg_specs U (fuelOf (stored c b p))).2.2 (stored c b p) b.id (newNode b p) path
+      w1 hp1 hx1 hU1 (dlv_new sd) (fuelOf_enough _)
     rw [g1]
     simp only
-    refine ⟨⟨g2, ⟨path2, g3⟩, ?_⟩, g4, (fun s hs => by split at hs <;> cases hs), ?_, ?_⟩
+    have g7' : Lost U c.root (stored c b p) c2 := g7
+    refine ⟨⟨g2, ⟨path2, g3, g6⟩, ?_⟩, g4, (fun s hs => by split at hs <;> cases hs), ?_, ?_,
+      hlost1.trans g7', fun hnone => Or.inr (Or.inr (g7' b.id (by rw [dlv_new sd]; rfl) hnone))⟩
     rotate_left
     · by_cases hc2 : c2.tip = b.id
       · exact Or.inr (Or.inl hc2)
@@ -331,6 +351,7 @@ theorem getNode_rejected (c : Chain) (b : Block) (t : Node) (hb : getNode c b.id
 
 /-- a block delivered on the tip: connected (the branch grows) or rejected and dropped from the tree again -/
 theorem deliver_tip {U : List Block} {c : Chain} (w : TreeWF U c) {path : List PE} (hpath : PathOK c 0 path)
+    (hx : Ext c path)
     (t : Node) (ht : getNode c c.tip = some t) (hth : t.height = path.length)
     (hm : MaxW c) (hU : BlockTree c.root U) (b : Block) (hbU : b ∈ U)
     (hb : getNode c b.id = none) (htip : c.tip = b.parent) :
@@ -338,7 +359,8 @@ theorem deliver_tip {U : List Block} {c : Chain} (w : TreeWF U c) {path : List P
     (commitBlock (accepted c b t) b (path.length + 1)).1.root = c.root ∧
     (∀ s, (commitBlock (accepted c b t) b (path.length + 1)).2 ≠ Outcome.panic s) ∧
     ((commitBlock (accepted c b t) b (path.length + 1)).1.tip = c.tip ∨
-      (commitBlock (accepted c b t) b (path.length + 1)).1.tip = b.id) := by
+      (commitBlock (accepted c b t) b (path.length + 1)).1.tip = b.id) ∧
+    DeliveryComplete U c b (commitBlock (accepted c b t) b (path.length + 1)) := by
   rw [htip] at ht
   have hp := ht
   have hpid : t.id = b.parent := getNode_id hp
@@ -383,8 +405,20 @@ theorem deliver_tip {U : List Block} {c : Chain} (w : TreeWF U c) {path : List P
     rw [commitBlock_ok_eq _ b _ ch htip2 hok] at hcp
     have hfl : max 0 (path.length + 1 - UnwindBufLen) = 0 := by omega
     rw [hfl] at hcp
-    refine ⟨⟨w1, ⟨_, hcp, newNode b t, dlv_new sd, by simp only [List.length_cons]; show t.height + 1 = _; omega⟩, ?_⟩,
-      hrt, (fun s hs => by cases hs), Or.inr rfl⟩
+    have hx1 : Ext { commitBlockTxs (preCommit (accepted c b t) b) (path.length + 1) true
+        (b.txs.map (·.txid)) ch with tip := b.id } (⟨b.id, b.txs⟩ :: path) :=
+      hx.extend b _ _ ch _ hct (by
+        show (commitBlockTxs (preCommit (accepted c b t) b) (path.length + 1) true (b.txs.map (·.txid)) ch).store = _
+        rw [hst]; rfl)
+    have hlost1 : Lost U c.root c { commitBlockTxs (preCommit (accepted c b t) b) (path.length + 1) true
+        (b.txs.map (·.txid)) ch with tip := b.id } := by
+      intro x hxs hnone
+      cases hg : getNode c x with
+      | none => rw [hg] at hxs; cases hxs
+      | some n => obtain ⟨n', g1, _⟩ := dlv_old hb hp sd x n hg; rw [g1] at hnone; cases hnone
+    refine ⟨⟨w1, ⟨_, ⟨hcp, newNode b t, dlv_new sd, by simp only [List.length_cons]; show t.height + 1 = _; omega⟩, hx1⟩, ?_⟩,
+      hrt, (fun s hs => by cases hs), Or.inr rfl,
+      hlost1, fun hnone => by rw [dlv_new sd] at hnone; cases hnone⟩
     refine maxW_new w hb hp sd hm rfl ?_
     intro t2 ht2
     have hw := dlv_W_new w w1 hU hb hp sd
@@ -404,8 +438,11 @@ theorem deliver_tip {U : List Block} {c : Chain} (w : TreeWF U c) {path : List P
     have hp1 : PathOK (rejectedChain (accepted c b t) b) 0 path :=
       PathOK_mono hpath hr htip.symm rfl rfl rfl (fun e _ n hn => ⟨n, by rw [hg]; exact hn, rfl, rfl⟩)
         (fun _ _ b0 hb0 => ⟨b0, hb0, rfl⟩)
-    refine ⟨⟨w1, ⟨path, hp1, t, by show getNode _ b.parent = some t; rw [hg]; exact hp, hth⟩, ?_⟩, hr,
-      (fun s hs => by cases hs), Or.inl htip.symm⟩
+    have hinv : InvalidOnReplay U c.root b := invalidOnReplay_on_path w hpath b htip.symm false e hct
+    refine ⟨⟨w1, ⟨path, ⟨hp1, t, by show getNode _ b.parent = some t; rw [hg]; exact hp, hth⟩,
+        hx.of_store_eq (c' := rejectedChain (accepted c b t) b) rfl⟩, ?_⟩, hr,
+      (fun s hs => by cases hs), Or.inl htip.symm,
+      Lost.of_getNode hg, fun _ => Or.inr (Or.inr ⟨b, hbU, UAnc.refl, hinv⟩)⟩
     obtain ⟨t0, ht0, hmax⟩ := hm
     refine ⟨t0, by show getNode _ b.parent = some t0; rw [hg, ← htip]; exact ht0, fun x n hn => ?_⟩
     rw [W_same hr hg, W_same hr hg]
@@ -416,33 +453,38 @@ theorem deliver_tip {U : List Block} {c : Chain} (w : TreeWF U c) {path : List P
     reorganised to: completely, or with a failure and the fall-back to the best remaining node). -/
 theorem deliver_inv {U : List Block} {c : Chain} (hi : Inv U c) (hU : BlockTree c.root U) (b : Block) (hbU : b ∈ U) :
     Inv U (deliver c b).1 ∧ (deliver c b).1.root = c.root ∧ (∀ s, (deliver c b).2 ≠ Outcome.panic s) ∧
-    ((deliver c b).1.tip = c.tip ∨ (deliver c b).1.tip = b.id ∨ (deliver c b).2 = Outcome.moveFailed) := by
-  obtain ⟨w, ⟨path, hpo⟩, hm⟩ := hi
+    ((deliver c b).1.tip = c.tip ∨ (deliver c b).1.tip = b.id ∨ (deliver c b).2 = Outcome.moveFailed) ∧
+    DeliveryComplete U c b (deliver c b) := by
+  obtain ⟨w, ⟨path, hpo, hx⟩, hm⟩ := hi
   obtain ⟨hpath, t, ht, hth⟩ := hpo
+  have same : Lost U c.root c c := Lost.of_getNode (fun _ => rfl)
   cases hb : getNode c b.id with
   | some n0 =>
     have : deliver c b = (c, Outcome.dup) := by unfold deliver; simp [hb]
-    rw [this]; exact ⟨⟨w, ⟨path, hpath, t, ht, hth⟩, hm⟩, rfl, (fun s hs => by cases hs), Or.inl rfl⟩
+    rw [this]; exact ⟨⟨w, ⟨path, ⟨hpath, t, ht, hth⟩, hx⟩, hm⟩, rfl, (fun s hs => by cases hs), Or.inl rfl,
+      same, fun hnone => by rw [hb] at hnone; cases hnone⟩
   | none =>
     cases hp : getNode c b.parent with
     | none =>
       have : deliver c b = (c, Outcome.later) := by unfold deliver; simp [hb, hp]
-      rw [this]; exact ⟨⟨w, ⟨path, hpath, t, ht, hth⟩, hm⟩, rfl, (fun s hs => by cases hs), Or.inl rfl⟩
+      rw [this]; exact ⟨⟨w, ⟨path, ⟨hpath, t, ht, hth⟩, hx⟩, hm⟩, rfl, (fun s hs => by cases hs), Or.inl rfl,
+        same, fun _ => Or.inl rfl⟩
     | some p =>
       cases hdeep : (p.id != t.id && decide (t.height ≥ p.height + 1 + MovingCheckpointDepth)) with
       | true =>
         have : deliver c b = (c, Outcome.tooDeep) := by
-          unfold deliver; simp only [hb, Option.isSome_none, Bool.false_eq_true, if_false, hp, ht, hdeep, if_true]
-        rw [this]; exact ⟨⟨w, ⟨path, hpath, t, ht, hth⟩, hm⟩, rfl, (fun s hs => by cases hs), Or.inl rfl⟩
+          unfold deliver deliverAt; simp only [hb, Option.isSome_none, Bool.false_eq_true, if_false, hp, ht, hdeep, if_true]
+        rw [this]; exact ⟨⟨w, ⟨path, ⟨hpath, t, ht, hth⟩, hx⟩, hm⟩, rfl, (fun s hs => by cases hs), Or.inl rfl,
+          same, fun _ => Or.inr (Or.inl rfl)⟩
       | false =>
         rw [deliver_eq c b p t hb hp ht hdeep]
         by_cases htip : c.tip = b.parent
         · rw [← htip, ht] at hp; cases hp
           rw [hth]
-          obtain ⟨h1, h2, h3, h4⟩ := deliver_tip w hpath t ht hth hm hU b hbU hb htip
-          exact ⟨h1, h2, h3, h4.elim Or.inl (fun h => Or.inr (Or.inl h))⟩
-        · obtain ⟨h1, h2, h3, h4, _⟩ := deliver_side w ⟨hpath, t, ht, hth⟩ hm hU b hbU p hb hp htip (p.height + 1)
-          exact ⟨h1, h2, h3, h4⟩
+          obtain ⟨h1, h2, h3, h4, h5⟩ := deliver_tip w hpath hx t ht hth hm hU b hbU hb htip
+          exact ⟨h1, h2, h3, h4.elim Or.inl (fun h => Or.inr (Or.inl h)), h5⟩
+        · obtain ⟨h1, h2, h3, h4, _, h6⟩ := deliver_side w ⟨hpath, t, ht, hth⟩ hx hm hU b hbU p hb hp htip (p.height + 1)
+          exact ⟨h1, h2, h3, h4, h6⟩
 
 /-- the initial state satisfies the invariant -/
 theorem init_inv (U : List Block) (r bits : Nat) (hbits : bits % 0x1000000 ≠ 0) : Inv U (ChainTree.init r bits) := by
@@ -462,7 +504,8 @@ theorem init_inv (U : List Block) (r bits : Nat) (hbits : bits % 0x1000000 ≠ 0
     by_cases hx : r = x
     · exact hx.symm
     · rw [if_neg hx] at h; cases h
-  refine ⟨⟨⟨_, hroot, rfl, hbits⟩, ?_, ?_, ?_, ?_⟩, ⟨[], init_pathH r bits⟩, ?_⟩
+  refine ⟨⟨⟨_, hroot, rfl, hbits⟩, ?_, ?_, ?_, ?_⟩,
+    ⟨[], init_pathH r bits, Ext.mk (fun k s h _ => by cases h) (fun e he => by cases he)⟩, ?_⟩
   · intro x n h hx; exact absurd (only x n h) hx
   · intro y p h x hx
     have := only y p h
@@ -484,24 +527,79 @@ theorem deliver_all_inv {U : List Block} (ds : List Block) : ∀ (c : Chain), In
   | nil => intro c hi _ _; exact ⟨hi, rfl⟩
   | cons b bs ih =>
     intro c hi hU hin
-    obtain ⟨h1, h2, _, _⟩ := deliver_inv hi hU b (hin b List.mem_cons_self)
+    obtain ⟨h1, h2, _, _, _⟩ := deliver_inv hi hU b (hin b List.mem_cons_self)
     obtain ⟨h3, h4⟩ := ih (deliver c b).1 h1 (by rw [h2]; exact hU) (fun x hx => hin x (List.mem_cons_of_mem _ hx))
     exact ⟨h3, h4.trans h2⟩
+
+theorem foldl_deliverG_fst (ds : List Block) : ∀ (s : Chain × List Nat),
+    (ds.foldl deliverG s).1 = ds.foldl (fun c b => (deliver c b).1) s.1 := by
+  induction ds with
+  | nil => intro s; rfl
+  | cons b bs ih => intro s; simp only [List.foldl_cons]; rw [ih]; rfl
+
+/-- one delivery keeps the completeness of the tree w.r.t. the ghost list of admitted blocks -/
+theorem deliverG_complete {U : List Block} {c : Chain} (hi : Inv U c) (hU : BlockTree c.root U) (b : Block) (hbU : b ∈ U)
+    (E : List Nat) (hc : Complete U c.root E c) :
+    Complete U c.root (deliverG (c, E) b).2 (deliverG (c, E) b).1 := by
+  obtain ⟨_, _, _, _, hl, hn⟩ := deliver_inv hi hU b hbU
+  have old : ∀ x ∈ E, (getNode (deliver c b).1 x).isSome = true ∨ Excused U c.root x := by
+    intro x hx
+    rcases hc x hx with h | h
+    · cases hg : getNode (deliver c b).1 x with
+      | some n => exact Or.inl rfl
+      | none => exact Or.inr (hl x h hg)
+    · exact Or.inr h
+  intro x hx
+  show (getNode (deliver c b).1 x).isSome = true ∨ _
+  unfold deliverG at hx
+  simp only at hx
+  cases ha : (deliver c b).2.admitted with
+  | false => rw [ha] at hx; exact old x hx
+  | true =>
+    rw [ha] at hx
+    simp only [if_true] at hx
+    rcases List.mem_cons.mp hx with rfl | h2
+    · cases hg : getNode (deliver c b).1 b.id with
+      | some n => exact Or.inl rfl
+      | none =>
+        rcases hn hg with h | h | h
+        · rw [h] at ha; cases ha
+        · rw [h] at ha; cases ha
+        · exact Or.inr h
+    · exact old x h2
+
+/-- **after every sequence of deliveries: the invariant, and completeness w.r.t. the blocks admitted on the way** -/
+theorem deliverG_all {U : List Block} (ds : List Block) : ∀ (s : Chain × List Nat), Inv U s.1 → BlockTree s.1.root U →
+    (∀ b ∈ ds, b ∈ U) → Complete U s.1.root s.2 s.1 →
+    Inv U (ds.foldl deliverG s).1 ∧ (ds.foldl deliverG s).1.root = s.1.root ∧
+      Complete U s.1.root (ds.foldl deliverG s).2 (ds.foldl deliverG s).1 := by
+  induction ds with
+  | nil => intro s hi _ _ hc; exact ⟨hi, rfl, hc⟩
+  | cons b bs ih =>
+    intro s hi hU hin hc
+    obtain ⟨c, E⟩ := s
+    obtain ⟨h1, h2, _, _, _⟩ := deliver_inv hi hU b (hin b List.mem_cons_self)
+    have hc1 := deliverG_complete hi hU b (hin b List.mem_cons_self) E hc
+    have hr : (deliverG (c, E) b).1.root = c.root := h2
+    obtain ⟨h3, h4, h5⟩ := ih (deliverG (c, E) b) h1 (by rw [hr]; exact hU) (fun x hx => hin x (List.mem_cons_of_mem _ hx))
+      (by rw [hr]; exact hc1)
+    simp only [List.foldl_cons]
+    exact ⟨h3, h4.trans hr, by rw [hr] at h5; exact h5⟩
 
 /-- **a side block without strictly more work never moves the tip** (ties keep the block that was there first) -/
 theorem deliver_keeps_tip {U : List Block} {c : Chain} (hi : Inv U c) (hU : BlockTree c.root U) (b : Block) (hbU : b ∈ U)
     (p t : Node) (hb : getNode c b.id = none) (hp : getNode c b.parent = some p) (ht : getNode c c.tip = some t)
     (hside : c.tip ≠ b.parent) (hle : ((workOf c p).add (difficulty b.bits)).gt (workOf c t) = false) :
     (deliver c b).1.tip = c.tip := by
-  obtain ⟨w, ⟨path, hpo⟩, hm⟩ := hi
+  obtain ⟨w, ⟨path, hpo, hx⟩, hm⟩ := hi
   cases hdeep : (p.id != t.id && decide (t.height ≥ p.height + 1 + MovingCheckpointDepth)) with
   | true =>
     have : deliver c b = (c, Outcome.tooDeep) := by
-      unfold deliver; simp only [hb, Option.isSome_none, Bool.false_eq_true, if_false, hp, ht, hdeep, if_true]
+      unfold deliver deliverAt; simp only [hb, Option.isSome_none, Bool.false_eq_true, if_false, hp, ht, hdeep, if_true]
     rw [this]
   | false =>
     rw [deliver_eq c b p t hb hp ht hdeep]
-    obtain ⟨_, _, _, _, h5⟩ := deliver_side w hpo hm hU b hbU p hb hp hside (p.height + 1)
+    obtain ⟨_, _, _, _, h5, _⟩ := deliver_side w hpo hx hm hU b hbU p hb hp hside (p.height + 1)
     apply h5 t ht
     have hbits := hU.bits b hbU
     have hd := difficulty_den_pos _ hbits
